@@ -220,6 +220,8 @@ struct PrintContext {
     all_names: Vec<RuntypeUUID>,
     type_with_args_names: BTreeMap<RuntypeUUID, String>,
     inlined: BTreeSet<RuntypeUUID>,
+    // unions currently being printed as discriminated unions (see print_runtype)
+    discriminated_in_progress: Vec<BTreeSet<Runtype>>,
 }
 
 impl PrintContext {
@@ -943,12 +945,35 @@ fn print_runtype(schema: &Runtype, named_schemas: &[NamedSchema], ctx: &mut Prin
 
             if let Some(consts) = maybe_runtype_any_of_consts(schema, &flat_values, ctx) {
                 consts
-            } else if let Some(discriminated) =
-                maybe_runtype_any_of_discriminated(schema, &flat_values, named_schemas, ctx)
-            {
-                discriminated
             } else {
-                runtype_union_or_intersection("AnyOfRuntype", vs, named_schemas, ctx, schema)
+                // The discriminated printer inlines the merged shape of a member that is an
+                // intersection; when that member is recursive (T2 = T1 & {...},
+                // T1 = { next: T2 | T0 }) the same union comes back while it is being printed:
+                // print it as a plain union (whose members stay references) that time, instead
+                // of inlining without end.
+                let discriminated = if ctx.discriminated_in_progress.contains(&flat_values) {
+                    None
+                } else {
+                    ctx.discriminated_in_progress.push(flat_values.clone());
+                    let it = maybe_runtype_any_of_discriminated(
+                        schema,
+                        &flat_values,
+                        named_schemas,
+                        ctx,
+                    );
+                    ctx.discriminated_in_progress.pop();
+                    it
+                };
+                match discriminated {
+                    Some(discriminated) => discriminated,
+                    None => runtype_union_or_intersection(
+                        "AnyOfRuntype",
+                        vs,
+                        named_schemas,
+                        ctx,
+                        schema,
+                    ),
+                }
             }
         }
         RuntypeKind::Tuple {
@@ -1081,6 +1106,11 @@ fn print_runtype(schema: &Runtype, named_schemas: &[NamedSchema], ctx: &mut Prin
         RuntypeKind::Void => new_runtype_class("NullishRuntype", vec![string_lit("void")], schema),
     };
 
+    // the same schema may have been printed (and hoisted) while its own parts were printed,
+    // see `discriminated_in_progress`: keep that one, ids must stay unique
+    if let Some((var_name, _)) = ctx.hoisted.get(&hoist_key) {
+        return hoist_identifier(*var_name);
+    }
     let new_id = ctx.hoisted.len();
     ctx.hoisted.insert(hoist_key, (new_id, out.clone()));
     hoist_identifier(new_id)
@@ -1160,6 +1190,7 @@ impl ParserExtractResult {
             .map(|it| it.name.clone())
             .collect::<Vec<RuntypeUUID>>();
         let mut hoisted = PrintContext {
+            discriminated_in_progress: vec![],
             hoisted: BTreeMap::new(),
             all_names,
             type_with_args_names: BTreeMap::new(),
